@@ -63,7 +63,10 @@ type loadCase struct {
 	Entry     int            `json:"entry"`
 	Unit      int            `json:"unit"`
 	Handler   bool           `json:"handler"`
+	Signed    bool           `json:"signed"`
 }
+
+const signedUnit = 512 // bytes per model size unit on signed trees (a signed change has > 300 bytes of envelope)
 
 type realBatch struct {
 	Ids   []string
@@ -216,9 +219,12 @@ func checkBatches(respObs, reqObs *observation, reqHeads []string, bs []realBatc
 	}
 	sofar := map[string]bool{}
 	for k, b := range bs {
+		// the size of a batch is what is actually sent: the raw bytes of its changes (never storage metadata)
 		sz := 0
+		for _, raw := range b.Raws {
+			sz += len(raw.RawChange)
+		}
 		for _, id := range b.Ids {
-			sz += sizes[id]
 			sofar[id] = true
 		}
 		if len(b.Ids) != 1 && sz > limit {
@@ -284,17 +290,18 @@ func batchIds(bs []realBatch) [][]string {
 // ---------------------------------------------------------------------------------------------
 
 type loadRunner struct {
-	approx bool // sizes are targets (random runs read the real sizes back from storage)
-	e      *env
-	rep    *vfutil.Report
-	idOf   func(int) string
-	pretty func(string) string
-	uni    map[int]uniCh
-	unit   int
-	root   *treechangeproto.RawTreeChangeWithId
-	nViol  int
-	robj   replayObj
-	what   string
+	freshBuild buildFunc // builder of a peer without the tree
+	approx     bool      // sizes are targets (random runs read the real sizes back from storage)
+	e          *env
+	rep        *vfutil.Report
+	idOf       func(int) string
+	pretty     func(string) string
+	uni        map[int]uniCh
+	unit       int
+	root       *treechangeproto.RawTreeChangeWithId
+	nViol      int
+	robj       replayObj
+	what       string
 }
 
 func (lr *loadRunner) rawOf(k int) *treechangeproto.RawTreeChangeWithId {
@@ -366,7 +373,11 @@ func (lr *loadRunner) apply(req *replica, bs []realBatch, what string) {
 // applyFresh = objecttree.ValidateRawTreeDefault + responsecollector for a peer without the tree:
 // storage with deferred creation, first batch must yield exactly the announced heads, no snapshot path
 func (lr *loadRunner) applyFresh(db int, bs []realBatch, respStore []string, what string) {
-	r, err := lr.e.newDeferredReplica(db, lr.root, objecttree.BuildEmptyDataTestableTree)
+	fb := lr.freshBuild
+	if fb == nil {
+		fb = objecttree.BuildEmptyDataTestableTree
+	}
+	r, err := lr.e.newDeferredReplica(db, lr.root, fb)
 	if err != nil {
 		lr.e.t.Fatalf("fresh replica: %v", err)
 	}
@@ -415,21 +426,184 @@ func describeLoad(b *behaviour, l loadExp) string {
 
 // runLoadBehaviour: all entries of one behaviour; `only` >= 0 restricts to one entry (replay).
 func runLoadBehaviour(e *env, rep *vfutil.Report, lb *loadBehaviour, only int, applyEvery int, handlerEvery int, counter *int) {
-	useMockBuilder()
-	prefix := e.nextPrefix()
+	runLoadBehaviourOn(e, rep, lb, only, applyEvery, handlerEvery, counter, false)
+}
+
+// signedLoadSetup executes the behaviour on real signed trees: every Add is the replica's own
+// AddContent (so the responder's storage rows of its own changes are written by AddContent), with
+// the payload chosen so that the raw change has exactly model size x signedUnit bytes and its content
+// id the rank the model chose.  Returns false if no such id was found (harness limit).
+func (lr *loadRunner) signedLoadSetup(b *behaviour, reps map[string]*replica, real map[int]string, raws map[int]*treechangeproto.RawTreeChangeWithId) bool {
+	e := lr.e
+	for _, s := range b.Steps {
+		r := reps[s.R]
+		switch s.Act {
+		case "Add":
+			target := lr.uni[s.Id].Size * lr.unit
+			fits := func(id string) bool {
+				for k, other := range real {
+					if k != 0 && (id < other) != (s.Id < k) {
+						return false
+					}
+				}
+				return true
+			}
+			mk := func(n, dataLen int) objecttree.SignableChangeContent {
+				data := make([]byte, dataLen)
+				copy(data, fmt.Sprintf("%016d", n))
+				return objecttree.SignableChangeContent{Data: data, Key: e.keys.SignKey, IsSnapshot: s.IsSnap, Timestamp: 1700000000 + int64(s.Id), DataType: "verif"}
+			}
+			r.tree.Lock()
+			dataLen, done := target-340, false
+			if dataLen < 16 {
+				dataLen = 16
+			}
+			for n := 0; n < 20000 && !done; n++ {
+				c := mk(n, dataLen)
+				raw, err := r.tree.PrepareChange(c)
+				if err != nil {
+					r.tree.Unlock()
+					e.t.Fatalf("signed load: prepare: %v", err)
+				}
+				if d := target - len(raw.RawChange); d != 0 {
+					dataLen += d
+					if dataLen < 16 {
+						r.tree.Unlock()
+						e.t.Fatalf("signed load: a signed change cannot be as small as %d bytes", target)
+					}
+					continue
+				}
+				if !fits(raw.Id) {
+					continue
+				}
+				res, err := r.tree.AddContent(e.ctx, c)
+				if err != nil || len(res.Added) != 1 || res.Added[0].Id != raw.Id {
+					r.tree.Unlock()
+					e.t.Fatalf("signed load: AddContent: %v", err)
+				}
+				real[s.Id] = raw.Id
+				raws[s.Id] = &treechangeproto.RawTreeChangeWithId{RawChange: append([]byte(nil), res.Added[0].RawChange...), Id: raw.Id}
+				done = true
+			}
+			r.tree.Unlock()
+			if !done {
+				return false
+			}
+		case "Deliver":
+			rs := make([]*treechangeproto.RawTreeChangeWithId, len(s.Batch))
+			for j, k := range s.Batch {
+				rs[j] = raws[k]
+			}
+			if _, err := r.addRaw(intsToIds(lr.idOf, s.Heads), intsToIds(lr.idOf, s.Path), rs...); err != nil {
+				e.t.Fatalf("signed load: deliver failed: %v", err)
+			}
+		}
+	}
+	return true
+}
+
+func runLoadBehaviourOn(e *env, rep *vfutil.Report, lb *loadBehaviour, only int, applyEvery int, handlerEvery int, counter *int, signed bool) {
 	lr := &loadRunner{e: e, rep: rep, unit: unit, uni: map[int]uniCh{}}
-	lr.idOf = func(k int) string { return fmt.Sprintf("%s%02d", prefix, k) }
-	lr.pretty = func(x string) string { return strings.ReplaceAll(x, prefix, "") }
 	for _, c := range lb.Universe {
 		lr.uni[c.Id] = c
 	}
-	lr.root = e.rootRaw(lr.idOf(0), lr.uni[0].Size*unit)
 	b := &lb.behaviour
 	reps := map[string]*replica{}
 	obs := map[string]*observation{}
 	sizes := map[string]int{}
-	for i, name := range b.Replicas {
-		reps[name] = lr.build(b, name, i)
+	var cloneOf func(name string, db int) *replica
+	unit := unit
+	if signed {
+		useRealBuilder()
+		unit = signedUnit
+		lr.unit = unit
+		real := map[int]string{}
+		raws := map[int]*treechangeproto.RawTreeChangeWithId{}
+		seedBytes := []byte(e.nextPrefix())
+		var root *treechangeproto.RawTreeChangeWithId
+		pad, target := 0, lr.uni[0].Size*unit
+		for i := 0; i < 16; i++ {
+			var err error
+			root, err = objecttree.CreateObjectTreeRoot(objecttree.ObjectTreeCreatePayload{PrivKey: e.keys.SignKey, ChangeType: "verif", SpaceId: spaceId,
+				Seed: seedBytes, Timestamp: 1700000000, ChangePayload: make([]byte, pad)}, e.acl)
+			if err != nil {
+				e.t.Fatalf("signed root: %v", err)
+			}
+			if len(root.RawChange) == target {
+				break
+			}
+			pad += target - len(root.RawChange)
+			if pad < 0 {
+				e.t.Fatalf("signed root cannot be as small as %d bytes", target)
+			}
+		}
+		if len(root.RawChange) != target {
+			rep.AddExtra("signed_behaviours_abandoned", 1)
+			return
+		}
+		lr.root = root
+		real[0] = root.Id
+		lr.idOf = func(k int) string { return real[k] }
+		lr.pretty = func(x string) string {
+			for k, id := range real {
+				x = strings.ReplaceAll(x, id, fmt.Sprintf("%02d", k))
+			}
+			return x
+		}
+		lr.freshBuild = objecttree.BuildEmptyDataObjectTree
+		for i, name := range b.Replicas {
+			r, err := e.newSyncReplica(i, root, objecttree.BuildObjectTree)
+			if err != nil {
+				e.t.Fatalf("replica: %v", err)
+			}
+			reps[name] = r
+		}
+		if !lr.signedLoadSetup(b, reps, real, raws) {
+			for _, r := range reps {
+				r.tree.Close()
+			}
+			rep.AddExtra("signed_behaviours_abandoned", 1)
+			return
+		}
+		cloneOf = func(name string, db int) *replica {
+			r, err := e.newSyncReplica(db, root, objecttree.BuildObjectTree)
+			if err != nil {
+				e.t.Fatalf("clone: %v", err)
+			}
+			for _, s := range b.Steps {
+				if s.R != name {
+					continue
+				}
+				var err error
+				switch s.Act {
+				case "Add":
+					_, err = r.addRaw([]string{real[s.Id]}, r.snapshotPath(), raws[s.Id])
+				case "Deliver":
+					rs := make([]*treechangeproto.RawTreeChangeWithId, len(s.Batch))
+					for j, k := range s.Batch {
+						rs[j] = raws[k]
+					}
+					_, err = r.addRaw(intsToIds(lr.idOf, s.Heads), intsToIds(lr.idOf, s.Path), rs...)
+				}
+				if err != nil {
+					e.t.Fatalf("clone of %s: %v", name, err)
+				}
+			}
+			return r
+		}
+		rep.AddExtra("signed_load_behaviours", 1)
+	} else {
+		useMockBuilder()
+		prefix := e.nextPrefix()
+		lr.idOf = func(k int) string { return fmt.Sprintf("%s%02d", prefix, k) }
+		lr.pretty = func(x string) string { return strings.ReplaceAll(x, prefix, "") }
+		lr.root = e.rootRaw(lr.idOf(0), lr.uni[0].Size*unit)
+		for i, name := range b.Replicas {
+			reps[name] = lr.build(b, name, i)
+		}
+		cloneOf = func(name string, db int) *replica { return lr.build(b, name, db) }
+	}
+	for _, name := range b.Replicas {
 		o, err := observe(reps[name])
 		if err != nil {
 			e.t.Fatalf("observe: %v", err)
@@ -453,7 +627,10 @@ func runLoadBehaviour(e *env, rep *vfutil.Report, lb *loadBehaviour, only int, a
 		}
 		*counter++
 		lr.what = describeLoad(b, l)
-		lr.robj = replayObj{Kind: "load", Load: &loadCase{Behaviour: lb, Entry: li, Unit: unit}}
+		lr.robj = replayObj{Kind: "load", Load: &loadCase{Behaviour: lb, Entry: li, Unit: unit, Signed: signed}}
+		if signed {
+			lr.what = "signed trees, own changes through AddContent: " + lr.what
+		}
 		resp := reps[l.Resp]
 		var (
 			reqObs           *observation
@@ -500,7 +677,7 @@ func runLoadBehaviour(e *env, rep *vfutil.Report, lb *loadBehaviour, only int, a
 			if l.Req == "fresh" {
 				lr.applyFresh(nextDB, bs, obs[l.Resp].Store, "loader")
 			} else {
-				clone := lr.build(b, l.Req, nextDB)
+				clone := cloneOf(l.Req, nextDB)
 				lr.apply(clone, bs, "loader")
 				clone.tree.Close()
 			}
@@ -510,7 +687,7 @@ func runLoadBehaviour(e *env, rep *vfutil.Report, lb *loadBehaviour, only int, a
 	}
 	// the same entries served through the real stream handler (fixed 1 MiB batch limit: the byte
 	// unit is chosen so that the model limit corresponds to it)
-	if handlerEvery > 0 && only < 0 {
+	if handlerEvery > 0 && only < 0 && !signed {
 		for li, l := range lb.Loads {
 			if l.Limit < 2 {
 				continue
@@ -634,7 +811,7 @@ func runLoadCase(e *env, rep *vfutil.Report, lc *loadCase, ro replayObj) {
 		return
 	}
 	n := 0
-	runLoadBehaviour(e, rep, lc.Behaviour, lc.Entry, 1, 0, &n)
+	runLoadBehaviourOn(e, rep, lc.Behaviour, lc.Entry, 1, 0, &n, lc.Signed)
 }
 
 func TestLoadReplay(t *testing.T) {
@@ -664,6 +841,11 @@ func TestLoadReplay(t *testing.T) {
 	for i := range behs {
 		lb := &behs[i]
 		runLoadBehaviour(e, rep, lb, -1, applyEvery, vfutil.EnvInt("VERIF_HANDLER_EVERY", 0), &n)
+		if se := vfutil.EnvInt("VERIF_SIGNED_EVERY", 0); se > 0 && i%se == 0 {
+			// the same behaviour on signed trees whose own changes are written by the real AddContent
+			runLoadBehaviourOn(e, rep, lb, -1, applyEvery, 0, &n, true)
+			rep.Case("signed:" + behaviourKey(&lb.behaviour))
+		}
 		rep.Case(behaviourKey(&lb.behaviour))
 		rep.AddReplayed(1)
 		if i < 2 && len(lb.Loads) > 0 {
@@ -681,15 +863,48 @@ func TestLoadReplay(t *testing.T) {
 // random larger histories
 
 func runRandomLoadCase(e *env, rep *vfutil.Report, rng *rand.Rand, seed int64, p randParams) {
-	useMockBuilder()
-	prefix := e.nextPrefix()
+	// Signed: real signed trees; every writer authors its changes with the real AddContent (so the
+	// responder's storage rows for them are written by AddContent, not by AddRawChanges), content ids.
+	// Otherwise chosen-id trees whose own additions are fed as raw changes.
 	lr := &loadRunner{e: e, rep: rep, unit: 1, approx: true, uni: map[int]uniCh{0: {Id: 0, Snap: 0, IsSnap: true, Size: 200 + rng.Intn(100)}}}
-	lr.idOf = func(k int) string { return fmt.Sprintf("%s%02d", prefix, k) }
-	lr.pretty = func(x string) string { return strings.ReplaceAll(x, prefix, "") }
 	lr.robj = replayObj{Kind: "random-load", Seed: seed, Params: p}
+	real := map[int]string{}                               // label -> real id
+	label := map[string]int{}                              // real id -> label
+	raws := map[int]*treechangeproto.RawTreeChangeWithId{} // signed: the raw change AddContent produced
+	build := buildFunc(objecttree.BuildTestableTree)
+	if p.Signed {
+		useRealBuilder()
+		root, err := objecttree.CreateObjectTreeRoot(objecttree.ObjectTreeCreatePayload{
+			PrivKey: e.keys.SignKey, ChangeType: "verif", SpaceId: spaceId,
+			Seed: []byte(e.nextPrefix()), Timestamp: 1700000000, ChangePayload: make([]byte, rng.Intn(200)),
+		}, e.acl)
+		if err != nil {
+			e.t.Fatalf("signed root: %v", err)
+		}
+		lr.root = root
+		real[0], label[root.Id] = root.Id, 0
+		build = objecttree.BuildObjectTree
+		lr.freshBuild = objecttree.BuildEmptyDataObjectTree
+		lr.idOf = func(k int) string { return real[k] }
+		lr.pretty = func(x string) string {
+			for k, id := range real {
+				x = strings.ReplaceAll(x, id, fmt.Sprintf("%02d", k))
+			}
+			return x
+		}
+	} else {
+		useMockBuilder()
+		prefix := e.nextPrefix()
+		lr.idOf = func(k int) string { return fmt.Sprintf("%s%02d", prefix, k) }
+		lr.pretty = func(x string) string { return strings.ReplaceAll(x, prefix, "") }
+		lr.root = e.rootRawSized(lr.idOf(0), lr.uni[0].Size, true)
+	}
 	num := func(id string) int {
+		if p.Signed {
+			return label[id]
+		}
 		var k int
-		fmt.Sscanf(strings.TrimPrefix(id, prefix), "%d", &k)
+		fmt.Sscanf(id[strings.LastIndex(id, ".")+1:], "%d", &k)
 		return k
 	}
 	nums := func(ids []string) []int {
@@ -699,7 +914,12 @@ func runRandomLoadCase(e *env, rep *vfutil.Report, rng *rand.Rand, seed int64, p
 		}
 		return r
 	}
-	lr.root = e.rootRawSized(lr.idOf(0), lr.uni[0].Size, true)
+	rawOf := func(k int) *treechangeproto.RawTreeChangeWithId {
+		if p.Signed {
+			return raws[k]
+		}
+		return lr.rawOf(k)
+	}
 	var names []string
 	reps := map[string]*replica{}
 	// the inputs every replica received, to clone it
@@ -711,7 +931,7 @@ func runRandomLoadCase(e *env, rep *vfutil.Report, rng *rand.Rand, seed int64, p
 	for i := 0; i < p.Writers; i++ {
 		n := fmt.Sprintf("w%d", i)
 		names = append(names, n)
-		r, err := e.newSyncReplica(i, lr.root, objecttree.BuildTestableTree)
+		r, err := e.newSyncReplica(i, lr.root, build)
 		if err != nil {
 			e.t.Fatalf("replica: %v", err)
 		}
@@ -724,11 +944,11 @@ func runRandomLoadCase(e *env, rep *vfutil.Report, rng *rand.Rand, seed int64, p
 	}()
 	var log []string
 	feed := func(n string, in input) error {
-		raws := make([]*treechangeproto.RawTreeChangeWithId, len(in.batch))
+		rs := make([]*treechangeproto.RawTreeChangeWithId, len(in.batch))
 		for i, k := range in.batch {
-			raws[i] = lr.rawOf(k)
+			rs[i] = rawOf(k)
 		}
-		_, err := reps[n].addRaw(in.heads, in.path, raws...)
+		_, err := reps[n].addRaw(in.heads, in.path, rs...)
 		return err
 	}
 	pool := rng.Perm(p.Changes)
@@ -763,9 +983,29 @@ func runRandomLoadCase(e *env, rep *vfutil.Report, rng *rand.Rand, seed int64, p
 		k := pool[created] + 1
 		created++
 		r := reps[w]
-		lr.uni[k] = uniCh{Id: k, Prev: nums(r.heads()), Snap: num(r.rootId()), IsSnap: rng.Float64() < p.PSnap, Size: 150 + rng.Intn(400)}
-		in := input{heads: []string{lr.idOf(k)}, path: r.snapshotPath(), batch: []int{k}}
-		log = append(log, fmt.Sprintf("%s.Add(%d prev=%v snapBase=%d snapshot=%v)", w, k, lr.uni[k].Prev, lr.uni[k].Snap, lr.uni[k].IsSnap))
+		u := uniCh{Id: k, Prev: nums(r.heads()), Snap: num(r.rootId()), IsSnap: rng.Float64() < p.PSnap, Size: 150 + rng.Intn(400)}
+		lr.uni[k] = u
+		path := r.snapshotPath()
+		if p.Signed {
+			// the writer authors the change itself: the real AddContent
+			data := make([]byte, 1+rng.Intn(400))
+			rng.Read(data)
+			r.tree.Lock()
+			res, err := r.tree.AddContent(e.ctx, objecttree.SignableChangeContent{Data: data, Key: e.keys.SignKey, IsSnapshot: u.IsSnap,
+				Timestamp: 1700000000 + int64(k), DataType: "verif"})
+			r.tree.Unlock()
+			if err != nil || len(res.Added) != 1 {
+				e.t.Fatalf("random load: AddContent failed: %v (%d added)", err, len(res.Added))
+			}
+			id := res.Added[0].Id
+			real[k], label[id] = id, k
+			raws[k] = &treechangeproto.RawTreeChangeWithId{RawChange: append([]byte(nil), res.Added[0].RawChange...), Id: id}
+			log = append(log, fmt.Sprintf("%s.AddContent(%d prev=%v snapBase=%d snapshot=%v data=%dB raw=%dB)", w, k, u.Prev, u.Snap, u.IsSnap, len(data), len(raws[k].RawChange)))
+			inputs[w] = append(inputs[w], input{heads: []string{id}, path: path, batch: []int{k}})
+			continue
+		}
+		in := input{heads: []string{lr.idOf(k)}, path: path, batch: []int{k}}
+		log = append(log, fmt.Sprintf("%s.Add(%d prev=%v snapBase=%d snapshot=%v)", w, k, u.Prev, u.Snap, u.IsSnap))
 		if err := feed(w, in); err != nil {
 			e.t.Fatalf("random load: add failed: %v", err)
 		}
@@ -851,7 +1091,7 @@ func runRandomLoadCase(e *env, rep *vfutil.Report, rng *rand.Rand, seed int64, p
 				if qn == "fresh" {
 					lr.applyFresh(nextDB, bs, obs[rn].Store, "loader")
 				} else {
-					clone, err := e.newSyncReplica(nextDB, lr.root, objecttree.BuildTestableTree)
+					clone, err := e.newSyncReplica(nextDB, lr.root, build)
 					if err != nil {
 						e.t.Fatalf("clone: %v", err)
 					}
@@ -888,9 +1128,13 @@ func TestRandomLoad(t *testing.T) {
 	for i := 0; i < runs; i++ {
 		seed := base*7000003 + int64(i)
 		prng := rand.New(rand.NewSource(seed ^ 0x5eed))
-		p := randParams{Writers: 2 + prng.Intn(2), Changes: 5 + prng.Intn(maxChanges-4), PSnap: []float64{0.1, 0.25, 0.4}[prng.Intn(3)], PSync: 0.3}
+		p := randParams{Writers: 2 + prng.Intn(2), Changes: 5 + prng.Intn(maxChanges-4), PSnap: []float64{0.1, 0.25, 0.4}[prng.Intn(3)], PSync: 0.3,
+			Signed: i%2 == 1} // every second run: signed trees, writers author through the real AddContent
 		runRandomLoadCase(e, rep, rand.New(rand.NewSource(seed)), seed, p)
-		rep.Case(fmt.Sprintf("w%d-c%d-s%.2f", p.Writers, p.Changes, p.PSnap))
+		if p.Signed {
+			rep.AddExtra("signed_runs", 1)
+		}
+		rep.Case(fmt.Sprintf("w%d-c%d-s%.2f-signed=%v", p.Writers, p.Changes, p.PSnap, p.Signed))
 		rep.AddReplayed(1)
 		if i < 2 {
 			rep.Sample(map[string]any{"random-load": p, "seed": seed})
